@@ -24,6 +24,8 @@ UNITS = {
                     desc="same for the u32 serial backend (never compiled on this host)"),
     "S64": dict(engine="verus", template="contracts/s64.vx", props=["C02", "C11", "C12", "C05", "C14"], rlimit=100, timeout_s=1500,
                 desc="serial u64 scalar backend: every function of u64/scalar.rs (Scalar52) against integer arithmetic mod l, incl. montgomery_reduce, from_bytes_wide"),
+    "S32": dict(engine="verus", template="contracts/s32.vx", props=["C02", "C11", "C12", "C05", "C14"], rlimit=100, timeout_s=1500,
+                desc="serial u32 scalar backend (Scalar29, Karatsuba mul_internal with wrapping terms, never compiled on this host by the repo's own build): every function against integer arithmetic mod l"),
     "SGR": dict(engine="verus", template="contracts/sgr.vx", props=["C04", "C07", "C02", "C15", "C14"], rlimit=100,
                 desc="scalar.rs recodings: as_radix_16, non_adjacent_form, as_radix_2w (digit sums and ranges, all inputs), clamp_integer, small Scalar functions"),
     "K-OVF64": dict(engine="kani", crate="kani/kern64", props=["C11"], jobs=12, vx_gen=[("replay/consts64.vx", "src/constants_gen.rs")],
